@@ -62,7 +62,7 @@ class MemV:
 
 
 class Sem:
-    def __init__(self, B, inputs=None, entity_outputs=None):
+    def __init__(self, B, inputs=None, entity_outputs=None, mem_state=None):
         """inputs: {variable name: {signal: value}} overriding top-level constant declarations."""
         self.B = B
         self.inputs = inputs or {}
@@ -76,6 +76,12 @@ class Sem:
         self.top_types = {}
         self.uses_memory = False
         self.depth = 0
+        # memories (stateful part of S3): current stored value per declared cell (keyed by declaration
+        # instance), and the writes the program performs in this evaluation
+        self.mem_state = mem_state if mem_state is not None else {}
+        self.mem_types = {}
+        self.writes = {}
+        self._mem_instances = 0
 
     # ------------------------------------------------------------------ helpers
     def fresh_implicit(self):
@@ -149,7 +155,13 @@ class Sem:
             return
         if k == "MemDecl":
             self.uses_memory = True
-            env[st.name] = MemV(st.name, st.signal_type)
+            # every executed declaration is its own cell (per call, per loop iteration)
+            self._mem_instances += 1
+            key = f"{st.name}#{self._mem_instances}"
+            env[st.name] = MemV(key, st.signal_type)
+            self.mem_types.setdefault(key, st.signal_type)
+            if top:
+                self.decl_order.append(st.name)
             return
         if k == "ForStmt":
             for val in self.iteration_values(st, env):
@@ -502,12 +514,52 @@ class Sem:
         raise SemError(f"property read {e.property_name}")
 
     def x_ReadExpr(self, e, env):
-        self.uses_memory = True
-        raise SemError("memory read (stateful)")
+        m = env.get(e.memory_name)
+        if not isinstance(m, MemV):
+            raise Rejected(f"undefined memory {e.memory_name}")
+        self.consumed.add(e.memory_name)
+        return SigV(self.mem_types.get(m.name), self.mem_state.get(m.name, self.B.const(0)))
 
     def x_WriteExpr(self, e, env):
-        self.uses_memory = True
-        raise SemError("memory write (stateful)")
+        m = env.get(e.memory_name)
+        if not isinstance(m, MemV):
+            raise Rejected(f"undefined memory {e.memory_name}")
+        if m.name in self.writes:
+            raise Rejected("second write to one cell")
+        val = self.expr(e.value, env)
+        if isinstance(val, SigV) and self.mem_types.get(m.name) is None:
+            self.mem_types[m.name] = val.type
+        rec = {"value": self.num(val), "kind": "always"}
+        if e.set_signal is not None or e.reset_signal is not None:
+            rec["kind"] = "latch"
+            rec["set"] = self.num(self.expr(e.set_signal, env))
+            rec["reset"] = self.num(self.expr(e.reset_signal, env))
+            rec["set_priority"] = bool(e.set_priority)
+        elif e.when is not None:
+            rec["kind"] = "when"
+            rec["when"] = self.num(self.expr(e.when, env))
+        self.writes[m.name] = rec
+        return IntV(0)
+
+    def next_mem_state(self, latch_bits=None):
+        """State after one application of every write of this evaluation (B must be concrete or the
+        caller must build ite terms itself)."""
+        B = self.B
+        new = dict(self.mem_state)
+        for key, w in self.writes.items():
+            cur = self.mem_state.get(key, B.const(0))
+            if w["kind"] == "always":
+                new[key] = w["value"]
+            elif w["kind"] == "when":
+                new[key] = B.ite(B.cmp(">", w["when"], B.const(0)), w["value"], cur)
+            else:
+                s_on = B.cmp(">", w["set"], B.const(0))
+                r_on = B.cmp(">", w["reset"], B.const(0))
+                both = B.and_(s_on, r_on)
+                on = (latch_bits or {}).get(key, False)
+                nxt = B.ite(both, w["set_priority"], B.ite(s_on, True, B.ite(r_on, False, on)))
+                new[key] = ("latch", nxt, w["value"])
+        return new
 
     def x_SignalTypeAccess(self, e, env):
         raise SemError(".type outside a type position")
